@@ -12,10 +12,12 @@ package transport_quic
 //@   ensures ret2 == nil && ret0 != nil && peerID != "" ==> ret0.GetRemotePeer() == peerID
 
 // a session that is accepted yields a link
+// the link reported to the transport handler is the one NewLink built for this session
 //@ func (*Transport).HandleSession
 //@   noframe
 //@   nosweep nil-deref nil-map-write guard
 //@   ensures ret1 == nil ==> ret0 != nil
+//@   assert at call go.invoke.HandleLinkEstablished: istype(arg0, ptr(Link)) && unboxed(arg0, ptr(Link)) != nil && unboxed(arg0, ptr(Link)).sess == sess && unboxed(arg0, ptr(Link)).remotePeerID == mhEnc(0, pubKeyPB(rawPub(unboxed(arg0, ptr(Link)).remotePubKey)))
 
 // the dialer completes its promise with an error or with a link, never with neither
 //@ func (*Dialer).Execute
@@ -23,7 +25,21 @@ package transport_quic
 //@   nosweep nil-deref nil-map-write guard
 //@   assert at call SetResult: arg0 != nil || arg1 != nil
 
+// NewLink takes the link's remote identity from the session's certificate chain, nowhere else.
 //@ func NewLink
 //@   noframe
 //@   nosweep nil-deref
+//@   assert at call DetermineSessionIdentity: arg0 == sess
 //@   ensures ret1 == nil ==> ret0 != nil
+//@   ensures ret1 == nil ==> ret0.remotePubKey != nil && ret0.remotePeerID == mhEnc(0, pubKeyPB(rawPub(ret0.remotePubKey))) && ret0.sess == sess
+//@   fresh ret0
+
+// ---- C03: the identity a link reports is the one bound by the peer's certificate ----
+// DetermineSessionIdentity hands exactly the session's peer certificates to PubKeyFromCertChain,
+// fails when that fails, and returns the key it accepted together with the peer ID derived from it.
+//@ func DetermineSessionIdentity
+//@   noframe
+//@   nosweep nil-deref
+//@   assert at call PubKeyFromCertChain: arg0 == connState.TLS.PeerCertificates
+//@   assert at call IDFromPublicKey: arg0 == remotePubKey
+//@   ensures ret2 == nil ==> ret1 != nil && ret0 == mhEnc(0, pubKeyPB(rawPub(ret1)))
